@@ -163,8 +163,9 @@ def pyDecodeF : Nat → Str → Except DecErr Str
         else if d = 116 then (pyDecodeF n ds).map (9 :: ·)
         else if d = 118 then (pyDecodeF n ds).map (11 :: ·)
         else if isOct d then
+          -- (a value above 0o377 is only a SyntaxWarning, "invalid octal escape sequence", in CPython 3.12: the character is kept)
           let (v, r) := takeOct 2 ds (d - 48)
-          if v > 255 then .error .syntax else (pyDecodeF n r).map (v :: ·)
+          (pyDecodeF n r).map (v :: ·)
         else if d = 120 then
           (match takeHex 2 ds 0 with
            | some (v, r) => (pyDecodeF n r).map (v :: ·)
